@@ -48,6 +48,13 @@ def check(ctx, report):
     flags_and_timestamps(ctx, report, R4='C06.R7', R5='C06.R7')
     report.floor('C06.R7', 100, 'tabulated flag words and instants')
     dispatch_sides(ctx, report)
+    # the encoded value of a field is the value of the attribute: a composer that writes a constant for some values of an attribute
+    # the parser stores as read (TLS 1.2 in place of every later version) does not write the specified encoding of the object
+    # (binding comparison shared with C01.R2 / C11.R8)
+    from .c11 import fields_written_as_stored
+    fields_written_as_stored(ctx, report, RULE='C06.R10', kinds=None, modules=MODULES,
+                             title='SSL/TLS structures: what the composer hands to a primitive is the stored attribute, never a constant in its place')
+    report.floor('C06.R10', 200, 'fields of SSL/TLS structures')
     # the two signalling cipher suites of a client hello: what the parser folds into flags and the composer unfolds, evaluated over
     # every short suite sequence (shared with C05.R3 / C01.R10)
     report.rule('C06.R9', 'client hello: fallback and renegotiation SCSV are written exactly for the flags that are set, and read back as those flags')
